@@ -35,6 +35,7 @@ type Engine struct {
 
 	hashAxioms bool
 	redirects  map[string]string
+	pkgDir     string // directory of the package under test
 	fixedWitness map[string]string
 	bigIntType types.Type
 	initAllow  []string
@@ -77,7 +78,7 @@ func Load(dir, pkgPath string, overlay map[string][]byte) (*Engine, error) {
 	prog, spkgs := ssautil.AllPackages(pkgs, ssa.InstantiateGenerics|ssa.SanityCheckFunctions&0)
 	prog.Build()
 	eng := &Engine{prog: prog, harnessPkg: spkgs[0], intrinsics: map[string]intrinsicFn{}, blockedPkgs: map[string]bool{},
-		redirects: map[string]string{}, stepLimit: 2_000_000, trackFuncs: true, solverBin: "z3", solverTimeoutMs: 20000, workers: map[int]*Worker{}}
+		pkgDir: filepath.Join(dir, pkgPath), redirects: map[string]string{}, stepLimit: 2_000_000, trackFuncs: true, solverBin: "z3", solverTimeoutMs: 20000, workers: map[int]*Worker{}}
 	if bp := prog.ImportedPackage("math/big"); bp != nil {
 		eng.bigIntType = bp.Type("Int").Type()
 	}
